@@ -1899,6 +1899,36 @@ theorem np_clearWhiteout (layers : List VPath) (hl : NPLayers I layers) (p : Str
   · exact np_removeFile wo hwo
   · exact .pure _
 
+/-- `clear_whiteout` of `create_dir` (fix of O11): only the outcome of the removal is inspected -/
+theorem np_clearWhiteoutT (layers : List VPath) (hl : NPLayers I layers) (p : Str) :
+    NoPanic I (clearWhiteoutT layers p) := by
+  unfold clearWhiteoutT
+  apply NoPanic.bindQ _ (np_whiteoutPath layers p) (whiteoutPath_np layers hl p)
+  intro wo hwo
+  apply NoPanic.bind (VPath.np_exists wo hwo)
+  intro b; split
+  · have hrm := np_removeFile wo hwo
+    constructor
+    · intro w hw
+      have h1 := hrm.pres w hw
+      cases hres : wo.removeFile w with
+      | mk r w' =>
+        rw [hres] at h1
+        cases r with
+        | ok u => exact h1
+        | err k pth => cases k <;> exact h1
+        | panic => exact h1
+    · intro w hw
+      have h1 := hrm.np w hw
+      cases hres : wo.removeFile w with
+      | mk r w' =>
+        rw [hres] at h1
+        cases r with
+        | ok u => intro hc; cases hc
+        | err k pth => cases k <;> (intro hc; cases hc)
+        | panic => exact absurd rfl h1
+  · exact .pure _
+
 theorem np_addWhiteout (layers : List VPath) (hl : NPLayers I layers) (p : Str) :
     NoPanic I (addWhiteout layers p) := by
   unfold addWhiteout
@@ -1924,8 +1954,49 @@ theorem np_createDir (layers : List VPath) (hl : NPLayers I layers) (p : Str) :
     intro md; exact .failK _
   · apply NoPanic.bindQ _ (np_writePath layers p) (writePath_np layers hl p)
     intro wp hwp
-    apply NoPanic.bind (VPath.np_createDir wp hwp)
-    intro _; exact np_clearWhiteout layers hl p
+    -- the write layer's answer is inspected; at most the tolerant clearing of the whiteout follows
+    have hcd := VPath.np_createDir wp hwp
+    have hcl := np_clearWhiteoutT layers hl p
+    constructor
+    · intro w hw
+      have h1 := hcd.pres w hw
+      cases hres : wp.createDir w with
+      | mk r w' =>
+        rw [hres] at h1
+        have h2 := hcl.pres w' h1
+        cases r with
+        | ok u => cases u; exact h2
+        | err k pth =>
+          cases k <;> try exact h1
+          dsimp only
+          cases hres2 : clearWhiteoutT layers p w' with
+          | mk r2 w2 =>
+            rw [hres2] at h2
+            cases r2 with
+            | ok u => cases u; exact h2
+            | err k2 pth2 => exact h2
+            | panic => exact h2
+        | panic => exact h1
+    · intro w hw
+      have h1 := hcd.pres w hw
+      have h1n := hcd.np w hw
+      cases hres : wp.createDir w with
+      | mk r w' =>
+        rw [hres] at h1 h1n
+        have h2 := hcl.np w' h1
+        cases r with
+        | ok u => cases u; exact h2
+        | err k pth =>
+          cases k <;> try (intro hc; cases hc)
+          dsimp only
+          cases hres2 : clearWhiteoutT layers p w' with
+          | mk r2 w2 =>
+            rw [hres2] at h2
+            cases r2 with
+            | ok u => cases u; intro hc; cases hc
+            | err k2 pth2 => intro hc; cases hc
+            | panic => exact absurd rfl h2
+        | panic => exact absurd rfl h1n
 
 theorem np_refuseDir (layers : List VPath) (hl : NPLayers I layers) (p : Str) :
     NoPanic I (refuseDir layers p) := by
